@@ -22,7 +22,7 @@ RULE = ('histories = sequences of concrete operations (add / delete of every uni
         'contains a rejected call, or delete-then-re-add, or a rename followed by a lookup-changing operation; '
         'distinct by operation sequence')
 ASSUMPTIONS = ['renames never create a clash (the library cannot veto an attribute write; the statement promises lookup under current names)',
-               'deleting through an equal-but-not-identical copy is not generated (whether equality or identity selects the victim is not fixed by the statement)',
+               'deleting a column through an equal-but-not-identical copy is judged by a two-outcome validity predicate (refused unchanged, or the stored twin removed and detached; the foreign object stays attached); for tables / enums / references such deletes are not generated (whether equality or identity selects the victim is not fixed by the statement)',
                'the same sticky note / column / index is not added twice and positions are in range']
 FLOORS = {'quick': {'rejected': 1000, 'readd': 50, 'rename': 1000}, 'thorough': {'rejected': 10000, 'readd': 1000, 'rename': 10000}}
 
@@ -461,7 +461,8 @@ def evaluate(ops, ctx: Ctx = None, gen_name='?'):
     if ctx is not None:
         cls = classify(ops, statuses)
         ctx.record(jhash(ops), bool(cls), cls + [f'gen:{gen_name}'],
-                   dict(ops=[' '.join(map(str, o)) for o in ops], outcome=statuses) if cls and len(ops) >= 3 and len(ctx.samples) < 3 else None)
+                   dict(ops=[' '.join(map(str, o)) for o in ops], outcome=statuses)
+                   if cls and len(ctx.samples) < 3 and (gen_name == 'deep' or (len(ops) >= 3 and len(set(ops)) == len(ops) and 'rename' in cls)) else None)
     return viols
 
 
